@@ -120,11 +120,14 @@ class H(QuietMixin, web.RequestHandler):
         self.ran = True
         self.write("ok")
 
-    get = head = post = put = options = delete = patch = _run
+    # a custom verb: the gate must cover every method that is not GET/HEAD/OPTIONS
+    SUPPORTED_METHODS = web.RequestHandler.SUPPORTED_METHODS + ("PURGE",)
+    get = head = post = put = options = delete = patch = purge = _run
 
 
-METHODS = ["POST", "GET", "PUT", "DELETE", "PATCH", "HEAD", "OPTIONS"]   # quick: the first NM=2
+METHODS = ["POST", "GET", "PUT", "DELETE", "PATCH", "HEAD", "OPTIONS", "PURGE"]   # h_issued quick: the first NM=2
 SAFE = ("GET", "HEAD", "OPTIONS")
+UNSAFE = ["POST", "PATCH", "PUT", "DELETE", "PURGE"]
 
 
 def ref_decode(tok):
@@ -227,6 +230,15 @@ def _concretize(v, pool):
     return v
 
 
+def _pick(pool, i):
+    """pool[i] with a branch per index, so that the chosen element is concrete on each path (indexing a
+    tuple with a symbolic int yields a symbolic value that drags the hex arithmetic into the solver)."""
+    for k in range(len(pool)):
+        if i == k:
+            return pool[k]
+    raise IndexError(i)
+
+
 def issued_choice():
     k = P.shard
     return k % 3, 1 + (k // 3) % 2, (k // 6) % 3       # cver, pver, chan
@@ -273,7 +285,7 @@ def pre_issued(mi: int, cver: int, t: int, x1: int, x2: int, pver: int, chan: in
 
 
 @harness(pre=pre_issued, quick=dict(NM=2, SYM=0, timeout=150, reach_timeout=90),
-         thorough=dict(NM=7, SYM=1, timeout=1400, reach_timeout=200),
+         thorough=dict(NM=8, SYM=1, timeout=1400, reach_timeout=200),
          nshards=dict(quick=18, thorough=18),
          reach=["issued_accepted", "other_session_rejected", "no_cookie_fresh_token_accepted", "safe_method"],
          units=["web.RequestHandler.xsrf_token", "web.RequestHandler._get_raw_xsrf_token",
@@ -337,7 +349,9 @@ def free_choice():
     return ci, chan
 
 
-def pre_free(ci: int, chan: int, cfree: str, ti: int, tfree: str) -> bool:
+def pre_free(ci: int, chan: int, cfree: str, ti: int, tfree: str, um: int) -> bool:
+    if not (0 <= um < len(UNSAFE)):
+        return False
     if P.nshards > 1:
         sci, schan = free_choice()
         if ci != sci or chan != schan:
@@ -355,18 +369,21 @@ def pre_free(ci: int, chan: int, cfree: str, ti: int, tfree: str) -> bool:
 
 @harness(pre=pre_free, quick=dict(L=P_L_QUICK, timeout=60, reach_timeout=120), thorough=dict(L=3, timeout=1400),
          nshards=dict(quick=21, thorough=21),    # = (len(CK)+1) * 3 channels
-         reach=["free_accepted", "free_rejected_403", "malformed_cookie"],
+         reach=["free_accepted", "free_rejected_403", "malformed_cookie", "free_non_post"],
          units=["web.RequestHandler._decode_xsrf_token", "web.RequestHandler.check_xsrf_cookie",
                 "web.RequestHandler._get_raw_xsrf_token", "web.RequestHandler._execute"],
-         stubs=STUBS + ["POST only; cookie / token = pooled prefix (valid and truncated v1/v2 shapes, unknown versions) + free "
+         stubs=STUBS + ["method from {POST, PATCH, PUT, DELETE, custom verb PURGE}; cookie / token = pooled prefix (valid and truncated v1/v2 shapes, unknown versions) + free "
                         "symbolic str (only one of the two has a free part), or absent; cookie pool entry and channel are "
                         "enumerated by sharding; urandom(16) fixed to fe ff here"],
          outside=OUTSIDE)
-def h_free(ci: int, chan: int, cfree: str, ti: int, tfree: str):
+def h_free(ci: int, chan: int, cfree: str, ti: int, tfree: str, um: int):
     rnd = RND
-    method = "POST"
-    cookie = None if ci < 0 else CK[ci] + cfree
-    token = None if ti < 0 else TKN[ti] + tfree
+    method = _pick(UNSAFE, um)
+    if um > 0:
+        reached("free_non_post")
+    # (an empty symbolic str concatenated to a concrete one still yields a symbolic string)
+    cookie = None if ci < 0 else (_pick(CK, ci) if len(cfree) == 0 else _pick(CK, ci) + cfree)
+    token = None if ti < 0 else (_pick(TKN, ti) if len(tfree) == 0 else _pick(TKN, ti) + tfree)
     RANDOM["token"] = rnd
     RANDOM["masks"] = []
     h, conn, sc, stok = run_request(method, cookie, token, chan, {})
@@ -384,3 +401,72 @@ def h_free(ci: int, chan: int, cfree: str, ti: int, tfree: str):
         reached("free_rejected_403")
         assert not h.ran, "handler ran with token %r (->%r) and cookie %r (->%r)" % (stok, tsec, sc, csec)
         assert conn.status == 403, "rejection must be 403, got %r" % (conn.status,)
+
+
+# ------------------------------------------------------------------------------------------ 3
+# The gate itself, for EVERY method: GET/HEAD/OPTIONS pass untouched; POST, PUT, DELETE, PATCH and a custom
+# verb (SUPPORTED_METHODS extended) reach the handler only with the token issued for the request's cookie.
+GT = (0x0a, 0x9f)
+
+
+def pre_gate(mi: int, cver: int, pver: int, ti: int, scen: int, chan: int) -> bool:
+    if P.nshards > 1 and mi != P.shard:
+        return False
+    return (0 <= mi < len(METHODS) and 1 <= cver <= 2 and 1 <= pver <= 2 and 0 <= ti < len(GT)
+            and 0 <= scen <= 5 and 0 <= chan <= 2)
+
+
+@harness(pre=pre_gate, quick=dict(timeout=150, reach_timeout=90), thorough=dict(timeout=600),
+         nshards=dict(quick=len(METHODS), thorough=len(METHODS)),
+         reach=["gate_custom_verb_blocked", "gate_patch_blocked", "gate_unsafe_accepted", "gate_safe_passes",
+                "gate_no_cookie_blocked"],
+         units=["web.RequestHandler._execute", "web.RequestHandler.check_xsrf_cookie", "web.RequestHandler.xsrf_token",
+                "web.RequestHandler._get_raw_xsrf_token", "web.RequestHandler._decode_xsrf_token"],
+         stubs=STUBS + ["method = every entry of {POST, GET, PUT, DELETE, PATCH, HEAD, OPTIONS, custom verb PURGE} (one shard "
+                        "each; PURGE via SUPPORTED_METHODS + a handler method); scenario chosen by the solver: 0 token issued "
+                        "by the real xsrf_token() for the cookie, 1 no token, 2 another session's token, 3 garbage token, "
+                        "4 valid-looking token but no cookie, 5 empty token; cookie v1/v2, token v1/v2, channel form/"
+                        "X-XSRFToken/X-CSRFToken; token/mask bytes from small pools"],
+         outside=OUTSIDE)
+def h_gate(mi: int, cver: int, pver: int, ti: int, scen: int, chan: int):
+    method = _pick(METHODS, mi)
+    ti = _pick((0, 1), ti)
+    x = ti % 2
+    tk = bytes([GT[ti]])
+    other = bytes([GT[(ti + 1) % len(GT)]])
+    m1 = bytes([X1P[x], 0x5a, 0x00, 0xff])
+    m2 = bytes([X2P[x], 0x5a, 0x00, 0xff])
+    RANDOM["token"] = tk
+    cookie = v1(tk) if cver == 1 else v2(m1, tk)
+    issued, _ = issue_token(cookie, pver, m2)
+    if scen == 0:
+        token = issued
+    elif scen == 1:
+        token = None
+    elif scen == 2:
+        token = v2(m2, other) if pver == 2 else v1(other)
+    elif scen == 3:
+        token = "zz|not-a-token"
+    elif scen == 4:
+        token = issued
+        cookie = None
+    else:
+        token = ""
+    RANDOM["token"] = b"\xfe"        # what a cookie-less request would draw; never equals a pooled token
+    RANDOM["masks"] = []
+    h, conn, sc, stok = run_request(method, cookie, token, chan, dict(xsrf_cookie_version=pver))
+    if method in SAFE:
+        reached("gate_safe_passes")
+        assert h.ran and conn.status == 200, "%s must not be subject to the XSRF check" % method
+    elif scen == 0:
+        reached("gate_unsafe_accepted")
+        assert h.ran and conn.status == 200, "%s with the issued token was rejected (%r)" % (method, conn.status)
+    else:
+        if method == "PURGE":
+            reached("gate_custom_verb_blocked")
+        if method == "PATCH":
+            reached("gate_patch_blocked")
+        if scen == 4:
+            reached("gate_no_cookie_blocked")
+        assert not h.ran, "%s reached the handler without a valid XSRF token (scenario %d)" % (method, scen)
+        assert conn.status == 403, "%s: rejection must be 403, got %r" % (method, conn.status)
